@@ -237,6 +237,8 @@ def check(model, rep):
     _dep = _Report('C20')
     check_concrete(model, _dep, model.member('Powertrain', '__init__'))
     rep.absorb(_dep, {'C20.locking': 'C13.flag-source'})
+    from checks.c20 import check_flag_writers
+    check_flag_writers(model, rep, R='C13.flag-source')
     # ... and the worm's own flag is written by add_worm_gear_mating only: with the documented criterion, and only by a
     # call that is accepted (a refused call must leave the gears of the mating still in force untouched) - C10's rules
     from sa.core import Report
@@ -244,7 +246,7 @@ def check(model, rep):
     dep = Report('C10')
     c10.check(model, dep)
     for i in dep.instances:
-        if i.rule in ('C10.effects', 'C10.atomic') and 'add_worm_gear_mating' in i.construct:
+        if i.rule in ('C10.effects', 'C10.atomic'):       # every relation function: none but the worm mating may touch the flag
             (rep.holds if i.status == 'HOLDS' else (rep.violation if i.status == 'VIOLATION' else rep.cannot))(
                 'C13.flag-source.mating.' + i.rule.split('.')[1], i.construct, i.detail, i.loc)
     rep.require('C13.lock-table', 2)
